@@ -95,7 +95,7 @@ static int history_of(size_t s, uint8_t *out, int cap)
 static void describe_case(vf_str *o, const uint8_t *hist, int nh, int failing)
 {
     vf_str_printf(o, "kind: parser\ninit: %s\nmax_depth: %d\nfill: %d\ninput_hex: ", KIND0 == VK_OBJ ? "object" : "array", MD, FILL);
-    if (INLEN <= 4096) vf_str_hex(o, IN, INLEN); else vf_str_printf(o, "(%zu bytes)", INLEN);
+    if (INLEN <= 200000) vf_str_hex(o, IN, INLEN); else { vf_str_hex(o, IN, 64); vf_str_printf(o, "...(%zu bytes, see input_label)", INLEN); }
     vf_str_printf(o, "\ninput_label: %s\ninput_len: %zu\nops:", INLABEL ? INLABEL : "", INLEN);
     for (int i = 0; i < nh; i++) vf_str_printf(o, " %d", hist[i]);
     if (failing >= 0) vf_str_printf(o, " %d", failing);
@@ -321,6 +321,19 @@ static bool do_op(shadow *sh, int op, mismatch *mm, bool counting)
             if (P_C16) return false;
         }
         if (counting && cb_count > 2 * adv) vf_max(CT_CB_MAXRATIO, cb_count - 2 * adv);
+        /* ... and the call must KEEP what it moved over: the cursor ends where the scan got to, except that a failed
+         * lookup may hand back the one name token it overshot */
+        if (!is_reinit(op) && e1 == BINSON_ERROR_NONE && cb_maxused > p->buffer_used) {
+            size_t back = cb_maxused - p->buffer_used;
+            size_t allowed = (is_lookup(op) && !ret) ? vf_name_token_size_at(&L, p->buffer_used) : 0;
+            if (back > allowed) {
+                snprintf(mm->why, sizeof mm->why, "%s scanned up to offset %zu but left the cursor at %zu: %zu bytes will be processed again (a failed lookup may re-read only the one name it overshot: %zu bytes)",
+                         opname[op], cb_maxused, p->buffer_used, back, allowed);
+                snprintf(mm->sig, sizeof mm->sig, "rewind:%s", opname[op]);
+                mm->prop = "C16";
+                if (P_C16) return false;
+            }
+        }
     }
     /* ---------------- C12: init / reset / verify give a clean start */
     if (is_reinit(op)) {
@@ -737,7 +750,7 @@ static void towers(void)
 }
 
 #define WBASE (1ULL << 40)
-static int L_FRAMED, L_UNFRAMED, N_DOC;
+static int L_FRAMED, L_UNFRAMED, N_DOC, L_CORE;
 static wexp_cfg WCF;
 static const int walpha_small[] = { WO_OBJ_BEGIN, WO_OBJ_END, WO_ARR_BEGIN, WO_TRUE, WO_INT_1, WO_INT_128, WO_INT_2P31, WO_DOUBLE, WO_STR_0, WO_STR_1, WO_STR_128, WO_STRZ_AB, WO_BYT_1, WO_RAW_0, WO_RAW_2, WO_P2W };
 
@@ -766,6 +779,14 @@ static void worker(int w, int W, uint64_t start)
         e.cb = on_seq; e.w = 0; e.W = 1;       /* partition by the global running index (take) */
         vf_tokenum_run(&e);
     }
+    /* 2b. one token deeper over the core alphabet (one representative per behaviour class) */
+    if (L_CORE > L_FRAMED)
+        for (int frame = 1; frame <= 2; frame++) {
+            memset(&e, 0, sizeof e);
+            e.alpha = vf_tok_hostile; e.idx = vf_tok_core_idx; e.ntok = VF_NTOK_CORE; e.maxlen = L_CORE; e.frame = frame == 1 ? VK_OBJ : VK_ARR;
+            e.cb = on_seq; e.w = 0; e.W = 1;
+            vf_tokenum_run(&e);
+        }
     /* 3. valid documents and all their one-deviation mutants */
     static const int cls[] = { LC_INT8, LC_INT16, LC_STR, LC_BYT, LC_DBL, LC_TRUE, LC_OBJ, LC_ARR };
     static vf_gen g;
@@ -782,6 +803,28 @@ static void worker(int w, int W, uint64_t start)
         g.root_kind = VK_OBJ; g.max_tokens = N_DOC; g.classes = clsl; g.nclasses = 4; g.names = vf_names_abL; g.nnames = 3; g.max_obj_depth = 3;
         g.cb = on_doc_plain;
         vf_gen_run(&g);
+    }
+    /* 3c. payloads that need a 2-byte and a 4-byte length prefix (string, bytes, name), in the smallest shapes */
+    {
+        static vf_doc bd;
+        static uint8_t big[40000];
+        memset(big, 'h', sizeof big);
+        static const size_t lens[] = { 200, 32768, 40000 };
+        for (int li = 0; li < 3; li++)
+            for (int shape = 0; shape < 5; shape++) {
+                if (!take()) continue;
+                vf_b_reset(&bd);
+                switch (shape) {
+                case 0: vf_b_open(&bd, VK_OBJ); vf_b_name(&bd, "a", 1); vf_b_blob(&bd, VK_STR, big, lens[li]); vf_b_name(&bd, "b", 1); vf_b_int(&bd, 1); vf_b_close(&bd); break;
+                case 1: vf_b_open(&bd, VK_ARR); vf_b_blob(&bd, VK_BYT, big, lens[li]); vf_b_int(&bd, 2); vf_b_close(&bd); break;
+                case 2: vf_b_open(&bd, VK_OBJ); vf_b_name(&bd, "a", 1); vf_b_int(&bd, 1); vf_b_name(&bd, big, lens[li]); vf_b_int(&bd, 2); vf_b_close(&bd); break;
+                case 3: vf_b_open(&bd, VK_OBJ); vf_b_name(&bd, "a", 1); vf_b_open(&bd, VK_ARR); vf_b_blob(&bd, VK_STR, big, lens[li]); vf_b_close(&bd); vf_b_name(&bd, "b", 1); vf_b_int(&bd, 3); vf_b_close(&bd); break;
+                default: vf_b_open(&bd, VK_OBJ); vf_b_name(&bd, big, lens[li]); vf_b_open(&bd, VK_OBJ); vf_b_name(&bd, "a", 1); vf_b_int(&bd, 4); vf_b_close(&bd); vf_b_close(&bd); break;
+                }
+                char lab[80];
+                snprintf(lab, sizeof lab, "big payload: shape %d, length %zu", shape, lens[li]);
+                process_input(bd.bytes, bd.len, lab);
+            }
     }
     /* 4. the writer (C09, C12, C16 speak about it too) */
 writer_phase:
@@ -801,7 +844,7 @@ static void replay_main(void)
     char *init = vf_replay_get(t, "init"), *md = vf_replay_get(t, "max_depth"), *fill = vf_replay_get(t, "fill"), *hex = vf_replay_get(t, "input_hex"),
          *ops = vf_replay_get(t, "ops");
     if (!init || !md || !fill || !hex || !ops) vf_die("replay file lacks init/max_depth/fill/input_hex/ops");
-    static uint8_t bytes[8192];
+    static uint8_t bytes[200000];
     long n = vf_unhex(bytes, sizeof bytes, hex);
     if (n < 0) vf_die("bad input_hex");
     input_serial++;
@@ -831,8 +874,9 @@ int main(int argc, char **argv)
     vf_main_init(argc, argv, "api", ctr_names);
     P_C01 = !strcmp(vf_g.prop, "C01"); P_C09 = !strcmp(vf_g.prop, "C09"); P_C12 = !strcmp(vf_g.prop, "C12"); P_C16 = !strcmp(vf_g.prop, "C16");
     if (!P_C01 && !P_C09 && !P_C12 && !P_C16) vf_die("api decides C01, C09, C12, C16");
-    L_FRAMED = vf_g.thorough ? 3 : 2; L_UNFRAMED = vf_g.thorough ? 3 : 2; N_DOC = vf_g.thorough ? 3 : 2;
     const char *e;
+    L_FRAMED = vf_g.thorough ? 3 : 2; L_UNFRAMED = vf_g.thorough ? 3 : 2; N_DOC = vf_g.thorough ? 3 : 2; L_CORE = vf_g.thorough ? 4 : 3;
+    if ((e = getenv("VERIF_LCORE"))) L_CORE = atoi(e);
     if ((e = getenv("VERIF_L"))) L_FRAMED = atoi(e);
     if ((e = getenv("VERIF_LU"))) L_UNFRAMED = atoi(e);
     if ((e = getenv("VERIF_N"))) N_DOC = atoi(e);
@@ -843,13 +887,13 @@ int main(int argc, char **argv)
     int deaths = vf_run_workers(worker);
     static char bound[1400];
     snprintf(bound, sizeof bound,
-             "inputs: all sequences of <= %d tokens over the %d-token hostile alphabet framed as object and as array, all unframed sequences of <= %d tokens "
+             "inputs: all sequences of <= %d tokens over the %d-token hostile alphabet (and of <= %d tokens over the 24-token core alphabet) framed as object and as array, all unframed sequences of <= %d tokens "
              "(incl. the empty and 1-byte buffers), all valid documents with <= %d value tokens and ALL their one-deviation mutants (each byte x 12 values, "
              "truncation/deletion/duplication at every byte, every hostile token appended / inserted), nesting towers k in {d-1,d,d+1} for max_depth d in "
              "{1,2,3,10,255} and 254..257 nested arrays; x {init_object, init_array} x max_depth {1,2,3} x prior memory fill {0x00,0xAA,0xFF}; per configuration: "
              "fixpoint over all sequences (any length) of %d API operations; writer: all sequences of <= %d of %d operations (+ each of 4 unencodable calls at every "
              "position) x every capacity",
-             L_FRAMED, VF_NTOK_HOSTILE, L_UNFRAMED, N_DOC, NOPS, WCF.K, WCF.nalpha);
+             L_FRAMED, VF_NTOK_HOSTILE, L_CORE, L_UNFRAMED, N_DOC, NOPS, WCF.K, WCF.nalpha);
     static const char *const assumptions[] = {
         "field lookups are issued only while the application-level shadow stack says 'inside an object' (the precondition stated in C01)",
         "all pointers handed to the API are valid (parser, state array of max_depth entries, buffer of the stated length)",
